@@ -115,11 +115,15 @@ func (w *worker) watchdog(memLimit uint64) {
 				}
 			}
 		}
+		// order matters: the CPU clock is read BEFORE the start mark. Read the other way round, a monitor goroutine that
+		// is descheduled between the two reads (load average of 100 on 16 cores: for seconds) would charge everything
+		// the worker did in the meantime - many later cases - to the case whose mark it had loaded
+		nowCPU := cpuNow()
 		start := w.caseStart.Load()
 		if start < 0 {
 			continue
 		}
-		if used := cpuNow() - start; used > int64(w.budget) {
+		if used := nowCPU - start; used > int64(w.budget) && w.caseStart.Load() == start {
 			fmt.Fprintf(os.Stderr, "BUDGET pos=%d index=%d cpu_ms=%d\n", w.casePos.Load(), w.caseIdx.Load(), used/1e6)
 			os.Exit(3)
 		}
